@@ -49,6 +49,14 @@ CHECKS = {
         note=PROOF_NOTE + "Modelled, not verified: torch.where broadcasting (index table computed by the harness with torch.expand); the mask-function path of apply_mask is checked structurally and by an oracle.",
         technique="Coq proof (structural induction over an operator-expression IR regenerated from the source; selection lemmas on lists) + bit-exact correspondence",
         design="§6 C03"),
+    "C04": dict(
+        text="BaseMaskFunc.__call__'s rank guards and the shape list of _reshape_and_add_coil_axis are regenerated on every run and proved, for every accepted shape and mode, equal to the documented geometry (coil axis 1, all axes 1 except rows, columns and the frame axis in dynamic/multislice mode), "
+             "which broadcasts against (coil, *shape). The control skeleton of the VariableDensityPoisson slope bisection is regenerated and proved to leave its loop for every sequence of verdicts (interval of representable slopes strictly shrinks; the unguarded loop is refuted by a fixed-point witness); "
+             "the Gaussian rejection kernels' loop condition is read from the .pyx and their contract (c+1 new distinct in-range cells, nothing removed) proved for every candidate stream. "
+             "Boolean dtype, produced shapes (mask and ACS), row-constancy of line masks, return-within-8s and documented errors are decided by oracles over the 14 generators x modes x ranks 3-5.",
+        note=PROOF_NOTE + "Modelled, not verified: the sampling patterns (numpy RandomState, libc rand in the Cython kernels, scipy rotate, spiral float arithmetic), torch reshape / numpy tile; floats of the bisection as ordinals with lo <= mid <= hi; wall-clock only through the harness alarm.",
+        technique="Coq proof (list lemmas over the regenerated shape function; well-founded measure for the regenerated bisection skeleton; induction over the candidate stream) + exact shape correspondence + generator oracles",
+        design="§6 C04"),
     "C06": dict(
         text="center_mask_func's pad / slice arithmetic, centered_disk_mask's centre and membership test and the magic cap are regenerated on every run and proved for every width, count and shape: exactly L contiguous columns inside the width, containing column N//2, "
              "balanced around it to within one; the cap keeps 1 <= L <= budget; the disc is point-symmetric about (n//2, m//2) and contains it iff r >= 1. Exhaustive exact correspondence (all 1 <= L <= N <= 40; discs up to 14x14). "
